@@ -245,7 +245,7 @@ int main(int argc, char** argv) {
         "kill_by_io_cost", "kill_by_pg_scan"});
     if (profile == "c03" || profile == "c07") D.plugin = "kill_by_memory_size_or_growth";
     bool rate = D.plugin == "kill_by_io_cost" || D.plugin == "kill_by_pg_scan";
-    bool recursive = r.chance(60), dry = r.chance(profile == "c04" ? 55 : 15), always = r.chance(15),
+    bool recursive = r.chance(60), dry = r.chance(profile == "c04" ? 55 : 15), always = r.chance(profile == "c05" ? 50 : 15),
          kernel = r.chance(profile == "c01" || profile == "c04" ? 35 : 15), reap = r.chance(60);
     int timeout = r.pick(std::vector<int>{0, 1, 2, 5});
     // ----- world
@@ -280,8 +280,15 @@ int main(int argc, char** argv) {
     std::vector<std::string> hookPats = {"*", "a", "a/*", "*/x", "b", "ab", "*/*/*", "a*"};
     int nb = profile == "c07" ? 1 + r.upto(3) : (r.chance(50) ? r.upto(3) : 0);
     for (int i = 0; i < nb; i++) baseHooks.push_back({"hb" + std::to_string(i), {r.pick(hookPats)}});
-    int nd = r.chance(30) ? 1 + r.upto(2) : 0;
-    for (int i = 0; i < nd; i++) dropHooks.push_back({"hd" + std::to_string(i), {r.pick(hookPats), r.pick(hookPats)}});
+    // drop-ins carry one or two hooks each; some are removed or updated (= removed and re-added as newest) later
+    int nd = r.chance(profile == "c07" ? 60 : 30) ? 1 + r.upto(profile == "c07" ? 4 : 2) : 0;
+    std::vector<std::vector<HookS>> dropIns;
+    for (int i = 0; i < nd; i++) {
+      std::vector<HookS> hs;
+      int nh = 1 + r.upto(2);
+      for (int j = 0; j < nh; j++) hs.push_back({"hd" + std::to_string(i) + "_" + std::to_string(j), {r.pick(hookPats), r.pick(hookPats)}});
+      dropIns.push_back(hs);
+    }
     // pre-existing xattr values
     std::vector<std::string> xj;
     for (auto& [p, n] : D.w.nodes) {
@@ -313,7 +320,11 @@ int main(int argc, char** argv) {
     if (D.plugin == "kill_by_pressure") act.args["resource"] = "memory";
     rs.acts.push_back(act);
     IR::Action nxt; nxt.name = kActName; nxt.args["id"] = "next"; rs.acts.push_back(nxt);
-    rs.post_action_delay = "0";
+    // post-action delays (C05 around a real kill plugin): mostly none, so that most executions keep killing every tick
+    int rsDelay = profile == "c05" ? r.pick(std::vector<int>{0, 2, 4, 6}) : r.pick(std::vector<int>{0, 0, 0, 0, 2, 5});
+    int plDelay = profile == "c05" ? r.pick(std::vector<int>{-1, -1, 0, 3, 7}) : r.pick(std::vector<int>{-1, -1, -1, -1, 0, 3});
+    if (plDelay >= 0) act.args["post_action_delay"] = std::to_string(plDelay), rs.acts[0].args["post_action_delay"] = std::to_string(plDelay);
+    rs.post_action_delay = std::to_string(rsDelay);
     rs.prekill_hook_timeout = std::to_string(timeout);
     root.rulesets.push_back(rs);
     auto hookIR = [](const HookS& h) {
@@ -327,13 +338,23 @@ int main(int argc, char** argv) {
     auto engine = Oomd::Config2::compile(root, pcc);
     if (!engine) { fprintf(stderr, "compile failed\n"); return 3; }
     std::vector<HookS> prio;
-    for (size_t i = 0; i < dropHooks.size(); i++) {
-      IR::Root dr; dr.prekill_hooks.push_back(hookIR(dropHooks[i]));
+    std::vector<int> liveOrder; // drop-ins in the order they were (last) added
+    auto addDropIn = [&](int i) {
+      IR::Root dr; for (auto& h : dropIns[i]) dr.prekill_hooks.push_back(hookIR(h));
       auto unit = Oomd::Config2::compileDropIn(root, dr, pcc);
-      if (!unit) { fprintf(stderr, "dropin compile failed\n"); return 3; }
+      if (!unit) { fprintf(stderr, "dropin compile failed\n"); _exit(3); }
       engine->addDropInConfig("tag" + std::to_string(i), std::move(*unit));
-      prio.insert(prio.begin(), dropHooks[i]);
+      liveOrder.push_back(i);
+    };
+    for (size_t i = 0; i < dropIns.size(); i++) addDropIn((int)i);
+    for (int k = 0, nrm = dropIns.empty() ? 0 : r.upto(3); k < nrm && !liveOrder.empty(); k++) {
+      int i = r.pick(liveOrder);
+      engine->removeDropInConfig("tag" + std::to_string(i));
+      liveOrder.erase(std::find(liveOrder.begin(), liveOrder.end(), i));
+      if (r.chance(50)) addDropIn(i);
     }
+    // priority: newest drop-in first (its hooks in config order), then base hooks in config order
+    for (auto it = liveOrder.rbegin(); it != liveOrder.rend(); ++it) for (auto& h : dropIns[*it]) prio.push_back(h);
     for (auto& h : baseHooks) prio.push_back(h);
     std::vector<std::string> hj;
     for (auto& h : prio) {
@@ -344,7 +365,7 @@ int main(int argc, char** argv) {
     evEmit(J().str("e", "KReset").num("scn", scn).num("seed", (long long)seed).str("profile", profile).num("t", t)
                .raw("cfg", J().str("plugin", D.plugin).raw("pats", J::arr(pj)).boolean("recursive", recursive)
                                .boolean("dry", dry).boolean("always", always).boolean("kernel", kernel)
-                               .boolean("reap", reap).raw("hooks", J::arr(hj)).num("timeout", timeout).done())
+                               .boolean("reap", reap).raw("hooks", J::arr(hj)).num("timeout", timeout).num("rsDelay", rsDelay).num("plDelay", plDelay).done())
                .raw("x", J::arr(xj)).raw("world", D.worldJson()));
 
     Oomd::ContextParams params;
@@ -424,9 +445,10 @@ int main(int argc, char** argv) {
     std::map<std::string, int> hookPolls; // "hook|cgroup" -> polls
     setHookDecider([&](const std::string&, const std::string&) { return r.pick(std::vector<int>{0, 0, 1, 2, 3, -1}); });
     int detStopPct = r.pick(std::vector<int>{0, 0, 20});
-    setDecider([&](const CallInfo& c) { Decision d; if (!c.isAction && r.chance(detStopPct)) d.ret = 1; return d; });
+    int nextStopPct = profile == "c05" ? 60 : r.pick(std::vector<int>{0, 0, 30});
+    setDecider([&](const CallInfo& c) { Decision d; if (!c.isAction && r.chance(detStopPct)) d.ret = 1; if (c.isAction && r.chance(nextStopPct)) d.ret = 1; return d; });
 
-    int nTicks = 2 + r.upto(profile == "c07" ? 9 : 6);
+    int nTicks = 2 + r.upto(profile == "c07" || profile == "c05" ? 9 : 6);
     for (int k = 0; k < nTicks; k++) {
       // ----- environment: edits between ticks
       if (k > 0) {
